@@ -519,3 +519,32 @@ Qed.
 
 Lemma ids_ok_empty s : st_auctions s = [] -> ids_ok s.
 Proof. unfold ids_ok. intros ->. split; constructor. Qed.
+
+(* ------------------------------------------------------------------ operations without a target auction *)
+Lemma L_C19_frame_untargeted s o j :
+  FrameFacts.target s o = None -> FrameFacts.is_block o = false -> o <> OGenesis ->
+  find_auction (snd (step s o)) j = find_auction s j
+  /\ bids_of (snd (step s o)) j = bids_of s j
+  /\ allowed_of (snd (step s o)) j = allowed_of s j
+  /\ vqs_of (snd (step s o)) j = vqs_of s j
+  /\ st_bseq (snd (step s o)) = st_bseq s
+  /\ st_mlen (snd (step s o)) = st_mlen s
+  /\ ((forall from to d amt, o <> OSend from to d amt) -> st_bal (snd (step s o)) = st_bal s).
+Proof.
+  intros T B Hg. pose proof (step_shape s o B Hg) as Sh. revert Sh.
+  generalize (fst (step s o)) (snd (step s o)). intros out s' Sh.
+  destruct Sh as [o c tr s' -> | from to d amt b xs | ls | auth cfee bfee period p
+    | m a0 s' Hc C Hid Hst He Hm Hf | who id a0 s' F0 S0 C | who id bt price coin a0 nb s' F0 S0 B1 B2 C
+    | who id bid price coin a0 b0 p amt s' F0 S0 B0 C | o id a0 s' T0 A F0 C ];
+    try discriminate T.
+  - repeat split.
+  - repeat split. intros H. exfalso. exact (H from to d amt eq_refl).
+  - repeat split.
+  - repeat split.
+  - rewrite (target_create s m Hc) in T. discriminate T.
+  - congruence.
+Qed.
+
+(* the target used here is the one of the executable checker *)
+Lemma target_agrees t : Checkers.target t = FrameFacts.target (t_pre t) (t_op t).
+Proof. unfold Checkers.target. destruct (t_op t) as [m| | | | | | |]; try reflexivity; destruct m; reflexivity. Qed.
